@@ -71,10 +71,11 @@ def mc_expander(ctx, casefile, cont, skip, label, liveness=True):
 
 class Batch:
     def __init__(self, genset, layouts, opts, rots, failsets=('none',), reps=2, names='plain', spell='simple', entry='ExpandSpec',
-                 caches='none'):
+                 caches='none', ids='', watchdog='8s'):
         self.genset, self.layouts, self.opts, self.rots = genset, layouts, opts, rots
         self.failsets, self.reps, self.names, self.spell, self.entry = failsets, reps, names, spell, entry
         self.caches = caches
+        self.ids, self.watchdog = ids, watchdog
 
 
 def observe(ctx, batches):
@@ -84,7 +85,9 @@ def observe(ctx, batches):
         cases = gen(ctx, *b.genset)
         args = ['-layouts', ','.join(b.layouts), '-opts', ','.join(b.opts), '-rots', ','.join(str(r) for r in b.rots),
                 '-names', b.names, '-spell', b.spell, '-reps', str(b.reps), '-failsets', ','.join(b.failsets),
-                '-entry', b.entry, '-caches', b.caches]
+                '-entry', b.entry, '-caches', b.caches, '-watchdog', b.watchdog]
+        if b.ids:
+            args += ['-ids', b.ids]
         obsfiles += vlib.run_worker(ctx, 'expander', cases, args, prefix='exp%d' % i)
     return obsfiles
 
@@ -118,12 +121,38 @@ def seeded(ctx):
     return {'rot': s % 12, 'names': 'special' if s % 2 == 0 else 'plain', 'spell': 'varied' if s % 3 == 0 else 'simple'}
 
 
+def confirm_crashes(ctx, pairs):
+    """A case on which the child process died or hung is run once more, alone, with a generous
+    watchdog, before anything is reported (a loaded machine must not raise an alarm)."""
+    listed = {f['id'] for f in vlib.load_findings() if f.get('status', 'open') == 'open' and ctx.prop in f.get('properties', [])}
+    crashed = [(i, o) for i, (o, v) in enumerate(pairs)
+               if o['outcome'] in ('timeout', 'fatal') and not (set(v.get('kf', [])) & listed)]
+    if not crashed:
+        return pairs
+    f = ctx.path('confirm.ndjson')
+    with open(f, 'w') as w:
+        for i, o in crashed:
+            w.write(json.dumps({'case': o['case'], 'nodes': o['abstract'], 'layout': o['layout'], 'rot': o['rot'], 'opts': o['opts'],
+                                'entry': o['entry'] or 'ExpandSpec', 'reps': 1, 'failurl': o['failurl'], 'preload': o['preload'],
+                                'names': o.get('names') or 'plain', 'spell': o.get('spell') or 'simple', 'cache': o.get('cache') or 'none'}) + '\n')
+    obsfiles = vlib.run_worker(ctx, 'expander', f, ['-watchdog', '30s'], shards=min(8, len(crashed)), prefix='confirm')
+    again = judge(ctx, obsfiles)
+    log('[confirm] %d crashed cases re-run alone: %d crash again' % (len(crashed), sum(1 for o, v in again if o['outcome'] in ('timeout', 'fatal'))))
+    key = lambda o: json.dumps([o['abstract'], o['layout'], o['rot'], o['opts'], o['entry'], o['failurl']], sort_keys=True)
+    redo = {key(o): (o, v) for o, v in again}
+    out = list(pairs)
+    for i, o in crashed:
+        if key(o) in redo:
+            out[i] = redo[key(o)]
+    return out
+
+
 def run_batches(ctx, batches, preds, mc_runs, nontrivial=lambda o, v: True, sample=lambda o, v: v.get('cyclic'), post=None):
     vlib.build_worker(ctx)
     for (genset, cont, skip, label) in mc_runs:
         mc_expander(ctx, gen(ctx, *genset), cont, skip, label)
     obsfiles = observe(ctx, batches)
-    pairs = judge(ctx, obsfiles)
+    pairs = confirm_crashes(ctx, judge(ctx, obsfiles))
     rep = vlib.Report(ctx)
     drift = 0
     for o, v in pairs:
@@ -211,14 +240,17 @@ def check_c04(ctx):
         batches = [Batch(G_N3_ALL_ANY, ORDINARY[:3] + COLLIDERS[:2], four, [sd['rot'], (sd['rot'] + 4) % 12], failsets=('none', '1'),
                          reps=1, names=sd['names'], spell='varied'),
                    Batch(G_N4_S_WF, ALL_LAYOUTS, four, [sd['rot']], reps=1, names='special', spell=sd['spell']),
-                   Batch(G_N3_D3_WF, ['sibling+subdir', 'parent+prefixdir'], four, [sd['rot']], reps=1)]
+                   Batch(G_N3_D3_WF, ['sibling+subdir', 'parent+prefixdir'], four, [sd['rot']], reps=1),
+                   Batch(G_N3_ALL_WF, ['sibling', 'subdir', 'remote'], four, [0, 1, 2, 3], reps=1, ids='abs,relfile,frag,reldir', watchdog='4s'),
+                   Batch(G_N4_S_WF, ['sibling'], ['000'], [sd['rot'] % 3], reps=1, ids='abs,relfile,frag', watchdog='4s')]
         mcs = [(G_N3_ALL_ANY, False, False, 'any_strict_full'), (G_N3_ALL_ANY, True, False, 'any_cont_full'),
                (G_N3_ALL_ANY, False, True, 'any_strict_skip'), (G_N3_ALL_ANY, True, True, 'any_cont_skip'),
                (G_N4_S_WF, False, False, 'N4S_strict_full')]
     else:
-        batches = [Batch(G_N3_ALL_ANY, ['sibling', ALL_LAYOUTS[ctx.seed % 8]], four, [sd['rot']], failsets=('none', '1'),
+        batches = [Batch(G_N3_ALL_ANY, [ALL_LAYOUTS[ctx.seed % 8]], four, [sd['rot']], failsets=('none',),
                          reps=1, names=sd['names'], spell=sd['spell']),
-                   Batch(G_N4_S_WF, [ALL_LAYOUTS[(ctx.seed + 3) % 8]], ['000', '110'], [sd['rot']], reps=1)]
+                   Batch(G_N4_S_WF, [ALL_LAYOUTS[(ctx.seed + 3) % 8]], ['000', '110'], [sd['rot']], reps=1),
+                   Batch(G_N3_ALL_WF, ['sibling'], ['000', '010'], sorted({ctx.seed % 4, 3}), reps=1, ids='abs,relfile,frag,reldir', watchdog='4s')]
         mcs = [(G_N3_ALL_ANY, False, False, 'any_strict_full'), (G_N3_ALL_ANY, True, True, 'any_cont_skip'),
                (G_N4_S_WF, False, False, 'N4S_strict_full')]
     rep = run_batches(ctx, batches, ['c04', 'c04work'], mcs, nontrivial=lambda o, v: v['cyclic'] or not v['wf'],
@@ -232,7 +264,8 @@ def check_c04(ctx):
         'process (8 s where <1 ms is normal); predicates: outcome in {ok, error} (no panic, fatal error, hang) and number of '
         'recorded cycle tests <= 4 * UnfoldSize + 16 with UnfoldSize computed by RefGraph!UnfoldSz on the projected input. '
         'distinct_nontrivial = distinct tuples whose graph is cyclic or ill-formed.',
-        ASSUME + ['ids (the id keyword) are exercised by the separate id batch only in the thorough tier'])
+        ASSUME + ['schemas carrying id (absolute, relative file, relative directory, fragment - in rotation over the structured schemas) are exercised by a separate batch; Expander.tla does not model id scopes',
+                  'a case on which the child died or hung is re-run alone with a 30 s watchdog before it is reported'])
 
 
 def check_c08(ctx):
